@@ -422,6 +422,11 @@ func (v *Verifier) Discharge(work string, tmo int, par int, depth int) []*Result
 				case "sat":
 					r.Status = "failed"
 					r.Model = extractModel(best.out)
+					// prefer a small counterexample (short slices, small integers) when one exists: easier to replay
+					if sm := v.smallModel(files[i], texts[i]); sm != "" {
+						r.Model = sm
+						r.Note = strings.TrimSpace(r.Note + " (small-value counterexample)")
+					}
 				case "error":
 					r.Status = "error"
 					r.Output = strings.Join(all, "; ") + "\n" + truncate(best.out, 2000)
@@ -503,5 +508,51 @@ func extractModel(out string) string {
 		return ""
 	}
 	m := out[k+1:]
-	return truncate(m, 20000)
+	return truncate(m, 400000)
+}
+
+// smallModel re-runs a satisfiable query with side constraints bounding slice lengths and integer constants.
+func (v *Verifier) smallModel(file, text string) string {
+	var cons []string
+	for _, line := range strings.Split(text, "\n") {
+		if !strings.HasPrefix(line, "(declare-const ") {
+			continue
+		}
+		rest := strings.TrimSuffix(strings.TrimPrefix(line, "(declare-const "), ")")
+		sp := strings.Index(rest, " ")
+		if sp < 0 {
+			continue
+		}
+		name, sort := rest[:sp], strings.TrimSpace(rest[sp+1:])
+		if strings.HasPrefix(name, "|") {
+			end := strings.Index(rest[1:], "|")
+			if end < 0 {
+				continue
+			}
+			name, sort = rest[:end+2], strings.TrimSpace(rest[end+2:])
+		}
+		switch {
+		case sort == "Int" && !strings.Contains(name, "alloc") && !strings.HasPrefix(name, "glob_"):
+			cons = append(cons, fmt.Sprintf("(assert (and (<= (- 3) %s) (<= %s 30)))", name, name))
+		case strings.HasPrefix(sort, "Slice_"):
+			cons = append(cons, fmt.Sprintf("(assert (<= (%s_len %s) 3))", sort, name))
+		}
+	}
+	if len(cons) == 0 {
+		return ""
+	}
+	k := strings.Index(text, "(check-sat)")
+	if k < 0 {
+		return ""
+	}
+	t2 := text[:k] + strings.Join(cons, "\n") + "\n" + text[k:]
+	f2 := strings.TrimSuffix(file, ".smt2") + ".small.smt2"
+	os.WriteFile(f2, []byte(t2), 0o644)
+	for _, sp := range solvers[:2] {
+		a, out, _ := runSolver(context.Background(), sp, f2, 8)
+		if a == "sat" {
+			return extractModel(out)
+		}
+	}
+	return ""
 }
